@@ -330,3 +330,18 @@ V("c11-start-check-outside-lock", "C11", LV, "        with self._lock:\n        
 V("c09-align-no-constrain", "C09", "rich/align.py", "        rendered = console.render(\n            Constrain(\n                self.renderable, width if self.width is None else min(width, self.width)\n            ),\n            options,\n        )", "        rendered = console.render(self.renderable, options.update(width=width))", "R9.5")
 V("c09-get-falsy-zero", "C09", ME, "        _max_width = console.width if max_width is None else max_width", "        _max_width = max_width or console.width", "R9.1")
 V("c06-add-mask-constant", "C06", S, "(self._attributes & ~style._set_attributes)", "(self._attributes & (style._set_attributes ^ 4095))", "R6.4")
+
+# ---- C02 -------------------------------------------------------------------------
+WR = "rich/_wrap.py"
+V("c02-divide-skips-start", "C02", TX, "        divide_offsets = [0, *_offsets, text_length]", "        divide_offsets = [*_offsets, text_length]", "R2.1")
+V("c02-divide-span-not-rebased", "C02", TX, "                line_span = _Span(span_start - start, span_end - start, span_style)", "                line_span = _Span(span_start, span_end, span_style)", "R2.1")
+V("c02-wrap-offsets-other-string", "C02", TX, "                offsets = divide_line(str(line), width, fold=wrap_overflow == \"fold\")", "                offsets = divide_line(str(line).strip(), width, fold=wrap_overflow == \"fold\")", "R2.2")
+V("c02-wrap-fold-always", "C02", TX, "                offsets = divide_line(str(line), width, fold=wrap_overflow == \"fold\")", "                offsets = divide_line(str(line), width)", "R2.2")
+V("c02-divide-no-sort", "C02", TX, "            line._spans.sort(key=get_order)\n", "", "R2.3")
+V("c02-offset-in-cells", "C02", WR, "                            start += len(line)\n", "                            start += _cell_len(line)\n", "R2.4")
+V("c02-compare-chars", "C02", WR, "        word_length = _cell_len(word.rstrip())\n", "        word_length = len(word.rstrip())\n", "R2.4")
+V("c02-chop-any-word", "C02", WR, "            if word_length > width:\n                if fold:", "            if word_length:\n                if fold:", "R2.4")
+V("c02-chop-position-zero", "C02", WR, "chop_cells(word, width, position=line_position)", "chop_cells(word, width)", "R2.4")
+V("c02-chop-ge", "C02", CE, "        if total_size + size > max_size:", "        if total_size + size >= max_size:", "R2.5")
+V("c02-rstrip-end-all-excess", "C02", TX, "                self.right_crop(min(whitespace_count, excess))", "                self.right_crop(excess)", "R2.6")
+V("c02-benign-alias", "C02", WR, "    _cell_len = cell_len\n", "    _cell_len = cell_len\n    _unused = width\n", None)
